@@ -158,7 +158,7 @@ theorem C11_server_dtype_table : ∀ d ∈ numericDtypes, srvDtypeOf d.1 d.2.1.t
 
 /-- a served attribute whose values are of one kind (all integers — Python ints, numpy integers of any width —, all
     floats, or all text) is written as a well-formed declaration: its `type` is a DAP4 type of that kind
-    (`_attribute_type`, fix abef005) and every integer's `str()` is a decimal text `int()` reads back -/
+    (`_attribute_type`, fix 02bf132) and every integer's `str()` is a decimal text `int()` reads back -/
 theorem C11_server_attr_ok (a : SrvAttr) (h : a.homog) : (srvAttrSpec a).ok := srvAttr_ok a h
 
 /-- **Server round trip**: for every served dataset — groups nested to any depth, each with its own dimensions,
